@@ -63,7 +63,7 @@ CHECKS = {
    note="Claimed for this clause only: equivariance, exact recovery and likelihood ordering of the Elementary / Probit / MaxLike analyzers are outside (least squares, scipy.optimize.fmin, norm.ppf on symbolic data have no encoding). 2..3 (quick) / 2..4 (thorough) test rows; admissible data (two distinct fracture loads and cycle numbers). pandas.Series.unique gets an object-dtype fall-back.",
    design="6 C18"),
  "C19": dict(
-   text="Bounded exhaustive symbolic check of the hot-spot clause: HotSpot.calc on concrete small meshes (shared nodes, disconnected, chains, id gaps, shuffled rows) with symbolic positive pairwise distinct field values against union-find components: exactly the entries >= fraction * maximum are labelled, labels are the connected components under shared-node / shared-element adjacency, numbered by descending peak.",
+   text="Bounded exhaustive symbolic check of the hot-spot clause: HotSpot.calc on concrete small meshes (shared nodes, disconnected, chains, id gaps, shuffled rows) with symbolic pairwise distinct field values of any sign against union-find components: exactly the entries >= fraction * maximum are labelled, labels are the connected components under shared-node / shared-element adjacency, numbered by descending peak.",
    note="Claimed for this clause only: gradients (lstsq, Jacobians), mesh mapping (Qhull) and surface detection (arccos) are outside. Meshes with 4..6 entries enumerated, fractions 0.5 and 0.9.",
    design="6 C19"),
 }
